@@ -532,6 +532,32 @@ def run_compile(job):
     return job, first, "\n".join(lines[:12])
 
 
+def defined_macros(job):
+    """Names of the object-like / function-like macros visible at the end of the one-line translation unit."""
+    outdir, header, cmd, xlang = job[:4]
+    try:
+        p = subprocess.run(cmd[:2] + ["-dM", "-E", "-I", str(outdir), "-x", xlang, "-"], input=f'#include "{header}"\n', capture_output=True,
+                           text=True, timeout=CC_TIMEOUT)
+    except subprocess.TimeoutExpired:
+        return set()
+    return set(re.findall(r"^#define (\w+)", p.stdout, re.M))
+
+
+def dsdl_identifiers(uni):
+    import pydsdl
+    names = set()
+    for ts in uni.types.values():
+        for t in ts:
+            names.update(t.full_namespace.split("."))
+            names.add(t.short_name)
+            names.update(attribute_names(t))
+            for c in reach(t).values():
+                names.update(c.full_namespace.split("."))
+                names.add(c.short_name)
+                names.update(a.name for a in c.attributes if a.name)
+    return names
+
+
 def classify(cfg, cmd, first, guard_collision):
     """Name of the defect class of a diagnostic (the key of the failure)."""
     cc = cmd[0]
@@ -668,7 +694,7 @@ def run(ctx: common.Ctx):
     # ---- universes -----------------------------------------------------------------------------------------------
     unis = corpus_universes()
     ncorpus = len(unis)
-    unis += generated_universes(ctx, n_gen=1 if quick else 5, n_simple=2 if quick else 5, n_types=18 if quick else 30)
+    unis += generated_universes(ctx, n_gen=1 if quick else 7, n_simple=2 if quick else 7, n_types=18 if quick else 30)
     good = []
     for u in unis:
         if u.read():
@@ -907,6 +933,7 @@ def run(ctx: common.Ctx):
     # ---- oracle: the compilers -------------------------------------------------------------------------------------------
     ctx.extra["compile_jobs"] = len(compile_jobs)
     ndiag = 0
+    ident_cache = {}
     with cf.ThreadPoolExecutor(max_workers=16) as ex:
         for job, first, detail in ex.map(run_compile, compile_jobs):
             ctx.count("compiled:" + job[2][0])
@@ -919,6 +946,14 @@ def run(ctx: common.Ctx):
             gs = [collided[x] for x in inc_set if x in collided]
             gc = len(set(gs)) < len(gs)      # the translation unit contains two headers with one include guard
             cause = c.cause or classify(c, cmd, first, gc)
+            if c.target == "cpp" and cause.startswith("cpp:"):
+                # a DSDL name that the C++ configuration leaves alone although it is a macro of an included C library header
+                if id(u) not in ident_cache:
+                    ident_cache[id(u)] = dsdl_identifiers(u)
+                hit = sorted(ident_cache[id(u)] & defined_macros(job))
+                if hit:
+                    cause = "cpp-unstropped-c-macro-name"
+                    detail = f"DSDL names that are macros here: {hit[:6]}\n" + detail
             first_rel = first.replace(str(outdir) + "/", "")
             ctx.fail({"kind": "diagnostic", "cause": cause},
                      f"{header} ({c.ident}) alone in a translation unit: {cmd[0]} {cmd[1]}: {first_rel}",
